@@ -339,7 +339,7 @@ def _streams(run):
 
 def c12(run):
     _streams(run)
-    run.scen("MC_Limits", {}, own=by_prefix("prefixed_read", "scenario"), name="MC_Limits (size-prefixed reads on long streams)")
+    run.scen("MC_Limits", {}, own=by_prefix("prefixed_read", "typed_roundtrip", "scenario"), name="MC_Limits (size-prefixed reads on long streams, typed round trips incl. wide strings)")
 
 
 def c13(run):
